@@ -4,22 +4,24 @@
    (rayon's collect preserves the order of the input: its documented contract, trusted). With
    fail_fast set, each worker executes, per file:
        if failure_detected.load(Relaxed) { return None }            -- result dropped
-       r = process(file); if r.is_failure() { failure_detected.store(true, Relaxed) }
+       r = process(file); if r.is_new_failure(baseline) { failure_detected.store(true, Relaxed) }
        return Some(r)
-   [ff_sub R R'] says: R' is a sublist of R, and if anything was dropped then R' contains a
-   failing result. This over-approximates EVERY interleaving of the workers under Relaxed
+   where is_new_failure = Failed and not contained in the loaded baseline ([ff_trigger]; repair of
+   D12, fixes/D12-failfast-skips-grandfathered.patch; before it the trigger was is_failed alone).
+   [ff_sub ob R R'] says: R' is a sublist of R, and if anything was dropped then R' contains a
+   triggering result. This over-approximates EVERY interleaving of the workers under Relaxed
    ordering, for any number of workers:
      - a result is never altered and never reordered, only dropped (filter_map + ordered
        collect), hence sublist;
      - a result is dropped only by a worker that READ true from the flag; the flag is
        initialised to false and true is only ever STORED by a worker that has just computed a
-       failing result r, and that worker returns Some(r) unconditionally afterwards; so whenever
-       some result is missing, a failing result is present in R'. Relaxed ordering can only delay
+       triggering result r, and that worker returns Some(r) unconditionally afterwards; so whenever
+       some result is missing, a triggering result is present in R'. Relaxed ordering can only delay
        the visibility of the store (fewer drops), it cannot make a load return a value that was
        never stored (no out-of-thin-air values for atomics).
    Nothing else is assumed: which results are dropped, and how many, is left arbitrary.
    The sequential schedules (one worker, files taken in list order) are [ff_seq]: the prefix up
-   to and including the first failing result.
+   to and including the first triggering result.
 
    Structure results are appended after the loop and are never dropped; appending the same
    suffix to R and R' preserves ff_sub (lemma ff_sub_app in Proofs_C11.v). *)
@@ -37,8 +39,16 @@ Inductive sublist {A : Type} : list A -> list A -> Prop :=
 Definition ff_sub_gen (trigger : result -> bool) (R R' : list result) : Prop :=
   sublist R' R /\ (R' <> R -> exists r, In r R' /\ trigger r = true).
 
-(* the code as shipped: the flag is set for every pre-baseline failure *)
-Definition ff_sub (R R' : list result) : Prop := ff_sub_gen is_failed R R'.
+(* CheckFileResult::is_new_failure *)
+Definition ff_trigger (ob : option baseline) (r : result) : bool :=
+  is_failed r && negb (match ob with Some b => contains (key_of r) b | None => false end).
+
+Definition ff_sub (ob : option baseline) (R R' : list result) : Prop := ff_sub_gen (ff_trigger ob) R R'.
+
+(* the loop with and without fail_fast: without it the closure is a plain map, and the ordered
+   collect returns R itself whatever the number of workers *)
+Definition loop_results (fail_fast : bool) (ob : option baseline) (R R' : list result) : Prop :=
+  if fail_fast then ff_sub ob R R' else R' = R.
 
 (* one worker, list order *)
 Fixpoint ff_seq_gen (trigger : result -> bool) (R : list result) : list result :=
@@ -46,7 +56,7 @@ Fixpoint ff_seq_gen (trigger : result -> bool) (R : list result) : list result :
   | [] => []
   | r :: R' => if trigger r then [r] else r :: ff_seq_gen trigger R'
   end.
-Definition ff_seq (R : list result) : list result := ff_seq_gen is_failed R.
+Definition ff_seq (ob : option baseline) (R : list result) : list result := ff_seq_gen (ff_trigger ob) R.
 
 (* executable test: greedy subsequence matching is complete for sublist *)
 Fixpoint sublistb (l' l : list result) : bool :=
@@ -58,4 +68,4 @@ Fixpoint sublistb (l' l : list result) : bool :=
 
 Definition ff_subb_gen (trigger : result -> bool) (R R' : list result) : bool :=
   sublistb R' R && (N.eqb (N.of_nat (length R')) (N.of_nat (length R)) || existsb trigger R').
-Definition ff_subb (R R' : list result) : bool := ff_subb_gen is_failed R R'.
+Definition ff_subb (ob : option baseline) (R R' : list result) : bool := ff_subb_gen (ff_trigger ob) R R'.
